@@ -551,7 +551,9 @@ static std::string typeTag(const SimCase& c)
   return "mixed";
 }
 static std::string simTag0(const SimCase& c);
-static std::string simTag(const SimCase& c) { return simTag0(c) + (c.style ? "" : ":new"); }
+// the generator style enters the key for the turning bands only (they are the only simulator whose behaviour
+// depends on it, see report); it is a label for the others
+static std::string simTag(const SimCase& c) { return (c.sim == SIM_TB && !c.style ? "newstyle-" : "") + simTag0(c); }
 static std::string simTag0(const SimCase& c)
 {
   switch (c.sim)
@@ -776,6 +778,8 @@ static void runSim(const SimCase& c, Ctx& ctx)
   for (auto& s : c.st) h.add(s.type).addq(s.param).addq(s.ratio.size() > 1 ? s.ratio[1] : 1.).add((int)s.angles.size());
   h.add(c.seed);
   ctx.sig = h.h;
+  if (neededB && getenv("VERIF_C14_DUMP"))
+    diag(fmt("DUMP worst est=%.6g exp=%.6g sd=%.4g scale=%.4g maxz=%.2f\n", worst.est, worst.exp, worst.sd, worst.scale, maxz) + "sub x\n" + toText(c) + "ENDDUMP");
   if (neededB || getenv("VERIF_C14_DIAG"))
     ctx.label(fmt("worst-stat-rel-dev:%.0f%%", 100. * std::fabs(worst.est - worst.exp) / worst.scale));
   if (getenv("VERIF_TIMING"))
